@@ -83,6 +83,10 @@ def main():
             types = ["i" if int_only else rng.choice("ids") for _ in cols]
             nrows = rng.randint(0, 8)
             rows = []
+            if ti == 0:
+                # corpus table: two String columns whose padded sizes are permutations of one another from record to record
+                ncols, cols, int_only, types, nrows = 3, ["c0", "c1", "c2"], False, ["s", "i", "s"], 0
+                rows = [("ab", 1, "abcde"), ("abcdef", 2, "xy"), ("wxyzvu", 3, ""), ("", 4, "abcde"), ("x", 5, "u")]
             for _ in range(nrows):
                 row = []
                 for t in types:
